@@ -32,6 +32,17 @@ def run(tier, seed, replay):
         specs = [dict(rp, id="0", dump=True, build_info="bi", keep_out=True)]
         hists = [rp["history"]]
     obs, rl, ml, acc = rtcommon.run_histories(out, tooldir, env, specs, hists, "C02 object graphs", "C02")
+    # user functions of the local package named like identifiers the generated constructor declares for itself (known finding F2)
+    if not replay:
+        ispecs, ihists = [], []
+        for nm in ("newService", "getParam", "callProvider", "dependencyValue", "getEnv"):
+            cfg = {"services": {"s": {"constructor": nm, "arguments": [1, "x"]}}}
+            sp = common.mk_spec(len(ispecs), [cfg], keep_out=True)
+            sp["cfg"] = cfg
+            sp["what"] = ["template-ident:" + nm]
+            ispecs.append(sp)
+            ihists.append([{"op": "get", "name": "s"}])
+        rtcommon.run_histories(out, tooldir, env, ispecs, ihists, "C02ident constructor named like a local of the generated constructor", "C02")
     nontrivial = set()
     dist = {"accepted": len(acc), "rejected": len(specs) - len(acc), "objects": 0, "errors": 0}
     for k in acc:
